@@ -29,9 +29,12 @@ CFG = dict(
         "engine F extractor /verif/go/facts/c01.go (syntactic, intra-procedural provenance of store targets; conservative by construction; "
         "stores done by callees outside the scanned files are not tracked except sort.*/slices.Sort*)",
         "C01 heap abstraction (Model/MeshHeap.lean): one untyped cell heap + map objects; the assignment of each public "
-        "operation to a memory-behaviour class is checked only by the heap-shape correspondence (reflect-observed sharing graph) "
+        "operation to a memory-behaviour class is derived from the source for the 76 Mesh-returning functions of modeling/mesh.go and modeling/meshops "
+        "(classification_from_source + class_realises) and otherwise checked by the heap-shape correspondence (reflect-observed sharing graph) "
         "and the value-level oracle, on generated histories",
         "reflect/unsafe reading of (data pointer, len, cap) and map identity of unexported Mesh fields; Go's non-moving GC",
+        "engine F extractor /verif/go/facts/c01_classes.go (syntactic sharing summaries, flow-insensitive join over all return statements and assignments, "
+        "callee summaries substituted at call sites; conservative: unrecognised shapes are `unknown`)",
     ],
     residue=[
         "RAGGED MESHES / MAP ORDER: Mesh.AttributeLength() (modeling/mesh.go) returns the length of the first attribute Go's randomised map "
@@ -56,7 +59,18 @@ CFG = dict(
         "are kept, replaced or deleted, not how meshops compute the new contents: that is C03)",
         "caller-owned slices/maps handed to NewMesh/Set*/SetFloatNData and the slice returned by Materials() are the caller's to leave alone (the harness never mutates them)",
         "concurrent use of one mesh from several goroutines is outside this property",
-        "that each Go function belongs to the class it is modelled by is corresponded (sharing graph + value snapshots on generated histories), not proved from the Go source",
+        "CLASSIFICATION, what is now derived from the source and what is not: for the 52 exported Mesh-returning functions of modeling/mesh.go and the 24 of "
+        "modeling/meshops the sharing summary (which component of the result is the receiver's / an argument's, which is allocated in the call) is regenerated by "
+        "go/facts/c01_classes.go and compared with the class summary by classification_from_source; class_realises proves the model operation has that summary. "
+        "STILL CORRESPONDED ONLY (sharing graph + value snapshots on generated histories): Mesh.Transform (dynamic dispatch over caller-supplied Transformers) and the "
+        "meshops *Transformer.Transform methods it calls (two results; they wrap the summarised functions); meshops functions returning several meshes (split / slice); "
+        "modeling/repeat, modeling/primitives and the format readers (class newMesh); the writers / iterators / scans that return no mesh (class readOnly: covered by "
+        "store_sites_fresh, not by a summary); shareMaterials (the composition m.SetMaterials(src.Materials()) made by the caller). meshops.RemoveNullFaces3D behaves as "
+        "one of two classes (returns its input, or rebuilds): the extractor joins all return statements, so it is compared per component with the UNION of the two "
+        "class summaries (weaker than 'one of the two as a whole'). The comparison is 'fits' (every source found is one the class allows), not equality. "
+        "The summary extractor is syntactic (go/ast, no type information): callees are resolved by name (unique function / method with a mesh or non-mesh receiver) "
+        "in modeling/mesh.go, modeling/meshops and math/trs; anything unresolved is `unknown` and fails the theorem; memory handed in by the caller (slice / map "
+        "parameters) counts as fresh (the caller-owned residue below)",
     ],
     assumptions=["Go's append writes in place iff len+k <= cap and otherwise returns a fresh array (growth policy arbitrary)"],
     manifest=dict(
@@ -65,8 +79,10 @@ CFG = dict(
              "replace-one-attribute, copy-attribute, rebuild, read-only, Append as it is now = copy-then-extend, transcribed loop by loop): "
              "op_frame / op_writes_fresh_only (an operation writes only memory it allocated - for the eleven non-Append classes this holds by "
              "construction of the class, which only allocates; the content is the transcribed Append and the classification of every Go "
-             "function into its class, which is CORRESPONDED through the observed sharing graph and value snapshots, not proved from the Go "
-             "source), history_immutable (for every finite history of operations picking arguments anywhere in the pool - branching "
+             "function into its class, which is DERIVED FROM THE SOURCE for the 76 exported Mesh-returning functions of modeling/mesh.go and modeling/meshops "
+             "(classification_from_source: decide over the regenerated sharing summaries vs the hand classification the harness uses, tied by c01.class lines; "
+             "class_realises: in every state the model operation of a class shares / allocates exactly the components its summary says) and corresponded "
+             "through the observed sharing graph and value snapshots for the rest (Transform, transformers, repeat, primitives, readers), history_immutable (for every finite history of operations picking arguments anywhere in the pool - branching "
              "derivations included - and every growth policy of append, every mesh keeps the observation it had when it entered), "
              "op_refines (every operation returns meshes whose observable value is a PURE function pureOp of the observable values of its "
              "arguments and - for Append / ToPointCloud - of what AttributeLength() resolved to, which Go's map order decides for ragged meshes - for Append the transcribed loops are proved equal to pureAppend: concatenation, zero padding, index shift - whatever "
@@ -80,7 +96,7 @@ CFG = dict(
              "snapshots of every live mesh after every operation and every mid-history primitive construction of generated histories, "
              "(d) a bit-exact value correspondence of the model's appendCopy AND of pureAppend with Mesh.Append.",
         note="Trusted: Lean kernel and the three standard axioms; the syntactic store-site extractor; the assignment of Go functions to "
-             "operation classes (corresponded, not proved); reflect/unsafe observation; harness. The commutation theorem is for bounded states "
+             "operation classes (derived from the source by a syntactic summary extractor for modeling/mesh.go and modeling/meshops; corresponded for the rest); reflect/unsafe observation; harness. The commutation theorem is for bounded states "
              "(invariant from the empty state), not for arbitrary Valid ones. MAP ORDER: AttributeLength() follows Go's randomised map iteration; "
              "for ragged meshes (attribute arrays of different lengths, accepted by SetFloatNAttribute) Append/ToPointCloud are not functions of "
              "the observations: the model takes the resolved value as a parameter (immutability theorems hold for every resolution; op_refines / "
